@@ -136,11 +136,11 @@ func (h *c07Half) closeWrite() {
 // ---------- one end of a connection (manet.Conn + network.ConnStat) ----------
 
 type c07Conn struct {
-	in, out        *c07Half
-	lnet, rnet     net.Addr
-	laddr, raddr   ma.Multiaddr
-	limited        bool
-	closeOnce      sync.Once
+	in, out      *c07Half
+	lnet, rnet   net.Addr
+	laddr, raddr ma.Multiaddr
+	limited      bool
+	closeOnce    sync.Once
 }
 
 var _ manet.Conn = (*c07Conn)(nil)
@@ -179,7 +179,9 @@ func (c *c07Conn) SetReadDeadline(t time.Time) error  { c.in.setReadDeadline(t);
 func (c *c07Conn) SetWriteDeadline(t time.Time) error { return nil } // writes never block
 
 // Stat makes the connection a limited one when asked to: the upgrader copies it (upgrader.upgrade).
-func (c *c07Conn) Stat() network.ConnStats { return network.ConnStats{Stats: network.Stats{Limited: c.limited}} }
+func (c *c07Conn) Stat() network.ConnStats {
+	return network.ConnStats{Stats: network.Stats{Limited: c.limited}}
+}
 
 // ---------- listener ----------
 
